@@ -45,9 +45,11 @@ class OsuToSM(ConvertBase):
         # Beat 0 of the file is the first bpm
         sms.offset = sm.bpms.first_offset() or 0.0
 
-        sm.chart_type = SMMapChartTypes.get_type(osu.stack().column.max() + 1)
+        # The key count is what the map declares, not the highest column in use
+        keys = int(osu.circle_size)
+        sm.chart_type = SMMapChartTypes.get_type(keys)
 
         if raise_bad_mode and not sm.chart_type:
-            raise ValueError(f"Keys {int(sm.stack().column.max() + 1)} isn't supported")
+            raise ValueError(f"Keys {keys} isn't supported")
 
         return sms
